@@ -1,0 +1,15 @@
+//go:build verif
+
+package queues
+
+// VerifState is a read-only projection of the ring buffer for the verification harness.
+type VerifState struct {
+	Head, Tail, Mod, Len int64
+}
+
+// VerifState returns the current projection (taken under the queue's lock).
+func (q *RingQueue) VerifState() VerifState {
+	q.lock.Lock()
+	defer q.lock.Unlock()
+	return VerifState{Head: q.content.head, Tail: q.content.tail, Mod: q.content.mod, Len: q.len}
+}
